@@ -56,3 +56,317 @@ Theorem c15_string_from_read :
 Proof. exact Compose.c15_string_from_read. Qed.
 Print Assumptions c15_string_from_read.
 
+
+(* ---------- no_table_borders / raw_mode draw no box character; footnotes off: no reference, no list (Proofs/NoBoxChars.v). is_box = U+2500..U+257F; boxp/pfoot = renderer-made characters of that class; tree_cl = no text, alt, src, target or CSS content string of the tree contains one ---------- *)
+From H2T Require Import Base Tagged Wrap Sub Css Dom Render Api CssParse Proofs.CssTotal Proofs.WrapInv Proofs.RenderWidth Proofs.Conserve Proofs.Footnotes Proofs.AnnBalance Proofs.RenderConserve Proofs.OptionRel Proofs.Compose Proofs.RenderTotal Proofs.FragStream Proofs.SimRel Proofs.Prune Proofs.NoBoxChars.
+Theorem c15_no_borders_render_tree :
+  forall (d : deco) (mw : N) (o : ropts) (width : N) (tree : rnode) (s : subr) (ls : list rline),
+       deco_cl boxp d ->
+       tree_cl boxp (o_footnotes o) tree = true ->
+       o_borders o = false ->
+       render_tree d mw o width tree = Ok s ->
+       sub_into_lines s = Ok ls ->
+       Forall (fun l : rline => exists tl : tline, l = RText tl) ls /\ nobox (flat_map rline_string ls).
+Proof. exact NoBoxChars.c15_no_borders_render_tree. Qed.
+Print Assumptions c15_no_borders_render_tree.
+
+Theorem c15_no_borders_into_string :
+  forall (d : deco) (mw : N) (o : ropts) (width : N) (tree : rnode) (s : subr) (t : text),
+       deco_cl boxp d ->
+       tree_cl boxp (o_footnotes o) tree = true ->
+       o_borders o = false -> render_tree d mw o width tree = Ok s -> sub_into_string s = Ok t -> nobox t.
+Proof. exact NoBoxChars.c15_no_borders_into_string. Qed.
+Print Assumptions c15_no_borders_into_string.
+
+Theorem c15_string_from_read_no_borders :
+  forall (ist : list (text * text) -> res (list styledecl)) (dr : list node -> res (list ruleset))
+         (c : config) (doc : list node) (width : N) (tree : rnode) (t : text),
+       deco_cl boxp (c_deco c) ->
+       c_borders c = false ->
+       to_render_tree ist dr c doc = Ok tree ->
+       tree_cl boxp (c_footnotes c) tree = true -> string_from_read ist dr c doc width = Ok t -> nobox t.
+Proof. exact NoBoxChars.c15_string_from_read_no_borders. Qed.
+Print Assumptions c15_string_from_read_no_borders.
+
+Theorem c15_lines_from_read_no_borders :
+  forall (ist : list (text * text) -> res (list styledecl)) (dr : list node -> res (list ruleset))
+         (c : config) (doc : list node) (width : N) (tree : rnode) (tls : list tline),
+       deco_cl boxp (c_deco c) ->
+       c_borders c = false ->
+       to_render_tree ist dr c doc = Ok tree ->
+       tree_cl boxp (c_footnotes c) tree = true ->
+       lines_from_read ist dr c doc width = Ok tls -> nobox (flat_map tl_string tls).
+Proof. exact NoBoxChars.c15_lines_from_read_no_borders. Qed.
+Print Assumptions c15_lines_from_read_no_borders.
+
+Theorem c15_string_from_read_raw :
+  forall (ist : list (text * text) -> res (list styledecl)) (dr : list node -> res (list ruleset))
+         (c0 : config) (raw : bool) (doc : list node) (width : N) (tree : rnode) 
+         (t : text),
+       deco_cl boxp (c_deco c0) ->
+       to_render_tree ist dr (set_raw c0 raw) doc = Ok tree ->
+       tree_cl boxp (c_footnotes c0) tree = true ->
+       string_from_read ist dr (set_raw c0 raw) doc width = Ok t -> nobox t.
+Proof. exact NoBoxChars.c15_string_from_read_raw. Qed.
+Print Assumptions c15_string_from_read_raw.
+
+Theorem c15_lines_from_read_raw :
+  forall (ist : list (text * text) -> res (list styledecl)) (dr : list node -> res (list ruleset))
+         (c0 : config) (raw : bool) (doc : list node) (width : N) (tree : rnode) 
+         (tls : list tline),
+       deco_cl boxp (c_deco c0) ->
+       to_render_tree ist dr (set_raw c0 raw) doc = Ok tree ->
+       tree_cl boxp (c_footnotes c0) tree = true ->
+       lines_from_read ist dr (set_raw c0 raw) doc width = Ok tls -> nobox (flat_map tl_string tls).
+Proof. exact NoBoxChars.c15_lines_from_read_raw. Qed.
+Print Assumptions c15_lines_from_read_raw.
+
+Theorem deco_cl_box_plain :
+  deco_cl boxp plain_deco.
+Proof. exact NoBoxChars.deco_cl_box_plain. Qed.
+Print Assumptions deco_cl_box_plain.
+
+Theorem deco_cl_box_rich :
+  deco_cl boxp rich_deco.
+Proof. exact NoBoxChars.deco_cl_box_rich. Qed.
+Print Assumptions deco_cl_box_rich.
+
+Theorem deco_cl_box_trivial :
+  deco_cl boxp trivial_deco.
+Proof. exact NoBoxChars.deco_cl_box_trivial. Qed.
+Print Assumptions deco_cl_box_trivial.
+
+Theorem deco_cl_box_custom :
+  forall lks lke ems eme sts ste sks ske cds cde ims ime hdr qt ul olsuf : text,
+       forallb nb_str [lks; lke; ems; eme; sts; ste; sks; ske; cds; cde; ims; ime; hdr; qt; ul; olsuf] = true ->
+       deco_cl boxp (custom_deco lks lke ems eme sts ste sks ske cds cde ims ime hdr qt ul olsuf).
+Proof. exact NoBoxChars.deco_cl_box_custom. Qed.
+Print Assumptions deco_cl_box_custom.
+
+Theorem c15_footnotes_off_render_tree :
+  forall (d : deco) (mw : N) (o : ropts) (width : N) (tree : rnode) (s : subr),
+       deco_cl pfoot d ->
+       tree_cl pfoot false tree = true ->
+       o_footnotes o = false ->
+       render_tree d mw o width tree = Ok s ->
+       (exists st : rstate,
+          render_node d mw tree {| stack := [sub_new width o]; links := [] |} = Ok st /\
+          stack st = [s] /\ sub_finalise s (links st) = []) /\
+       (forall ls : list rline, sub_into_lines s = Ok ls -> nofoot (flat_map rline_string ls)) /\
+       (forall t : text, sub_into_string s = Ok t -> nofoot t).
+Proof. exact NoBoxChars.c15_footnotes_off_render_tree. Qed.
+Print Assumptions c15_footnotes_off_render_tree.
+
+Theorem c15_string_from_read_footnotes_off :
+  forall (ist : list (text * text) -> res (list styledecl)) (dr : list node -> res (list ruleset))
+         (c : config) (doc : list node) (width : N) (tree : rnode) (t : text),
+       deco_cl pfoot (c_deco c) ->
+       c_footnotes c = false ->
+       to_render_tree ist dr c doc = Ok tree ->
+       tree_cl pfoot false tree = true -> string_from_read ist dr c doc width = Ok t -> nofoot t.
+Proof. exact NoBoxChars.c15_string_from_read_footnotes_off. Qed.
+Print Assumptions c15_string_from_read_footnotes_off.
+
+Theorem c15_lines_from_read_footnotes_off :
+  forall (ist : list (text * text) -> res (list styledecl)) (dr : list node -> res (list ruleset))
+         (c : config) (doc : list node) (width : N) (tree : rnode) (tls : list tline),
+       deco_cl pfoot (c_deco c) ->
+       c_footnotes c = false ->
+       to_render_tree ist dr c doc = Ok tree ->
+       tree_cl pfoot false tree = true ->
+       lines_from_read ist dr c doc width = Ok tls -> nofoot (flat_map tl_string tls).
+Proof. exact NoBoxChars.c15_lines_from_read_footnotes_off. Qed.
+Print Assumptions c15_lines_from_read_footnotes_off.
+
+Theorem c15_footnotes_same_stream_exact :
+  forall (d : deco) (mw : N) (o1 o2 : ropts) (width : N) (tree : rnode) (s1 s2 : subr)
+         (ls1 ls2 : list rline),
+       prefix_made d ->
+       o_raw o2 = o_raw o1 ->
+       o_allow_overflow o2 = o_allow_overflow o1 ->
+       no_table tree = true \/ o_raw o1 = true ->
+       render_tree d mw o1 width tree = Ok s1 ->
+       render_tree d mw o2 width tree = Ok s2 ->
+       sub_into_lines s1 = Ok ls1 ->
+       sub_into_lines s2 = Ok ls2 ->
+       filter docp (flat_map rline_string ls1) = filter docp (flat_map rline_string ls2).
+Proof. exact NoBoxChars.c15_footnotes_same_stream_exact. Qed.
+Print Assumptions c15_footnotes_same_stream_exact.
+
+Theorem c15_footnotes_same_stream :
+  forall (d : deco) (mw : N) (o1 o2 : ropts) (width : N) (tree : rnode) (s1 s2 : subr)
+         (ls1 ls2 : list rline),
+       prefix_made d ->
+       o_raw o2 = o_raw o1 ->
+       o_allow_overflow o2 = o_allow_overflow o1 ->
+       Forall posw (tree_stream d mw o1 tree width) ->
+       render_tree d mw o1 width tree = Ok s1 ->
+       render_tree d mw o2 width tree = Ok s2 ->
+       sub_into_lines s1 = Ok ls1 ->
+       sub_into_lines s2 = Ok ls2 ->
+       Permutation.Permutation (filter docp (flat_map rline_string ls1))
+         (filter docp (flat_map rline_string ls2)).
+Proof. exact NoBoxChars.c15_footnotes_same_stream. Qed.
+Print Assumptions c15_footnotes_same_stream.
+
+Theorem deco_cl_foot_plain :
+  deco_cl pfoot plain_deco.
+Proof. exact NoBoxChars.deco_cl_foot_plain. Qed.
+Print Assumptions deco_cl_foot_plain.
+
+Theorem deco_cl_foot_rich :
+  deco_cl pfoot rich_deco.
+Proof. exact NoBoxChars.deco_cl_foot_rich. Qed.
+Print Assumptions deco_cl_foot_rich.
+
+Theorem deco_cl_foot_trivial :
+  deco_cl pfoot trivial_deco.
+Proof. exact NoBoxChars.deco_cl_foot_trivial. Qed.
+Print Assumptions deco_cl_foot_trivial.
+
+Theorem deco_cl_foot_custom :
+  forall lks lke ems eme sts ste sks ske cds cde ims ime hdr qt ul olsuf : text,
+       deco_cl pfoot (custom_deco lks lke ems eme sts ste sks ske cds cde ims ime hdr qt ul olsuf).
+Proof. exact NoBoxChars.deco_cl_foot_custom. Qed.
+Print Assumptions deco_cl_foot_custom.
+
+
+(* ---------- pad_block_width only appends trailing spaces, whole renderer (Proofs/PadRel.v); pad_side excludes exactly the two recorded findings: a preserved line break inside pre (pad_blank_pre_line) and tables under allow_width_overflow (pad_overflowing_table_cell) ---------- *)
+From H2T Require Import Base Tagged Wrap Sub Css Dom Render Api CssParse Proofs.CssTotal Proofs.WrapInv Proofs.RenderWidth Proofs.Conserve Proofs.Footnotes Proofs.AnnBalance Proofs.RenderConserve Proofs.OptionRel Proofs.Compose Proofs.RenderTotal Proofs.FragStream Proofs.SimRel Proofs.Prune Proofs.PadRel.
+Theorem c15_pad_render_tree :
+  forall (d : deco) (mw : N) (o1 : ropts) (width : N) (tree : rnode),
+       o_pad o1 = false ->
+       pad_side d (o_allow_overflow o1) tree = true ->
+       res_rel (fun s1 s2 : subr => res_rel (Forall2 rline_pad) (sub_into_lines s1) (sub_into_lines s2))
+         (render_tree d mw o1 width tree) (render_tree d mw (with_pad o1) width tree).
+Proof. exact PadRel.c15_pad_render_tree. Qed.
+Print Assumptions c15_pad_render_tree.
+
+Theorem c15_pad_render_tree_rstrip :
+  forall (d : deco) (mw : N) (o1 : ropts) (width : N) (tree : rnode),
+       o_pad o1 = false ->
+       pad_side d (o_allow_overflow o1) tree = true ->
+       res_rel
+         (fun rs1 rs2 : list rline =>
+          length rs1 = length rs2 /\
+          Forall2 (fun a b : list chr => exists k : nat, b = a ++ repeat_chr padc k) 
+            (strings rs1) (strings rs2) /\ map rstrip (strings rs1) = map rstrip (strings rs2))
+         (do s <- render_tree d mw o1 width tree; sub_into_lines s)
+         (do s <- render_tree d mw (with_pad o1) width tree; sub_into_lines s).
+Proof. exact PadRel.c15_pad_render_tree_rstrip. Qed.
+Print Assumptions c15_pad_render_tree_rstrip.
+
+Theorem c15_pad_lines_from_read :
+  forall (inl : list (text * text) -> res (list styledecl)) (dr : list node -> res (list ruleset))
+         (c : config) (doc : list node) (w : N),
+       c_pad c = false ->
+       doc_side inl dr c doc ->
+       res_rel (Forall2 line_pad) (lines_from_read inl dr c doc w) (lines_from_read inl dr (set_pad c) doc w).
+Proof. exact PadRel.c15_pad_lines_from_read. Qed.
+Print Assumptions c15_pad_lines_from_read.
+
+Theorem c15_pad_string_from_read :
+  forall (inl : list (text * text) -> res (list styledecl)) (dr : list node -> res (list ruleset))
+         (c : config) (doc : list node) (w : N),
+       c_pad c = false ->
+       doc_side inl dr c doc ->
+       res_rel
+         (fun t1 t2 : text =>
+          exists ls1 ls2 : list text,
+            t1 = join_nl ls1 /\
+            t2 = join_nl ls2 /\
+            length ls1 = length ls2 /\
+            Forall2 (fun a b : list chr => exists k : nat, b = a ++ repeat_chr padc k) ls1 ls2 /\
+            map rstrip ls1 = map rstrip ls2) (string_from_read inl dr c doc w)
+         (string_from_read inl dr (set_pad c) doc w).
+Proof. exact PadRel.c15_pad_string_from_read. Qed.
+Print Assumptions c15_pad_string_from_read.
+
+Theorem c15_pad_render_tree_nopre :
+  forall (d : deco) (mw : N) (o1 : ropts) (width : N) (tree : rnode),
+       o_pad o1 = false ->
+       o_allow_overflow o1 = false ->
+       ol_prefix_monotone d ->
+       ol_prefix_sat d ->
+       nopre tree = true ->
+       res_rel (fun s1 s2 : subr => res_rel (Forall2 rline_pad) (sub_into_lines s1) (sub_into_lines s2))
+         (render_tree d mw o1 width tree) (render_tree d mw (with_pad o1) width tree).
+Proof. exact PadRel.c15_pad_render_tree_nopre. Qed.
+Print Assumptions c15_pad_render_tree_nopre.
+
+
+(* ---------- unicode strikeout on/off, whole renderer, any overflow setting (Proofs/StrikeRel.v, after fix aa6dbdd): same outcome, same number of lines, same widths; the lines are equal after deleting the marks; ins t1 t2 = t1 is t2 with marks inserted directly after non-whitespace characters of positive width ---------- *)
+From H2T Require Import Base Tagged Wrap Sub Css Dom Render Api CssParse Proofs.CssTotal Proofs.WrapInv Proofs.RenderWidth Proofs.Conserve Proofs.Footnotes Proofs.AnnBalance Proofs.RenderConserve Proofs.OptionRel Proofs.Compose Proofs.RenderTotal Proofs.FragStream Proofs.SimRel Proofs.Prune Proofs.StrikeRel.
+Theorem c15_strike_render :
+  forall (d : deco) (mw : N) (o1 o2 : ropts) (width : N) (tree : rnode),
+       same_but_strike o1 o2 ->
+       o_strike o2 = false ->
+       render_tree d mw o2 width tree <> OutOfFuel ->
+       res_rel SR (render_tree d mw o1 width tree) (render_tree d mw o2 width tree).
+Proof. exact StrikeRel.c15_strike_render. Qed.
+Print Assumptions c15_strike_render.
+
+Theorem c15_strike_lines :
+  forall (d : deco) (mw : N) (o1 o2 : ropts) (width : N) (tree : rnode),
+       same_but_strike o1 o2 ->
+       o_strike o2 = false ->
+       lines_of d mw o2 width tree <> OutOfFuel ->
+       res_rel (Forall2 RLR) (lines_of d mw o1 width tree) (lines_of d mw o2 width tree).
+Proof. exact StrikeRel.c15_strike_lines. Qed.
+Print Assumptions c15_strike_lines.
+
+Theorem c15_strike_deleted :
+  forall (d : deco) (mw : N) (o1 o2 : ropts) (width : N) (tree : rnode) (mark : chr -> bool),
+       mark strike_chr = true ->
+       same_but_strike o1 o2 ->
+       o_strike o2 = false ->
+       lines_of d mw o2 width tree <> OutOfFuel ->
+       res_rel (lines_rel mark) (lines_of d mw o1 width tree) (lines_of d mw o2 width tree).
+Proof. exact StrikeRel.c15_strike_deleted. Qed.
+Print Assumptions c15_strike_deleted.
+
+Theorem c15_strike_deleted_wf :
+  forall (d : deco) (mw : N) (o1 o2 : ropts) (width : N) (tree : rnode) (mark : chr -> bool),
+       mark strike_chr = true ->
+       same_but_strike o1 o2 ->
+       o_strike o2 = false ->
+       width < usize_max ->
+       tree_wf d mw tree = true ->
+       res_rel (lines_rel mark) (lines_of d mw o1 width tree) (lines_of d mw o2 width tree).
+Proof. exact StrikeRel.c15_strike_deleted_wf. Qed.
+Print Assumptions c15_strike_deleted_wf.
+
+Theorem c15_strike_lines_from_read :
+  forall (inl : list (text * text) -> res (list styledecl)) (dr : list node -> res (list ruleset))
+         (c : config) (doc : list node) (w : N) (mark : chr -> bool),
+       mark strike_chr = true ->
+       lines_from_read inl dr (set_strike c false) doc w <> OutOfFuel ->
+       res_rel (tlines_rel mark) (lines_from_read inl dr c doc w)
+         (lines_from_read inl dr (set_strike c false) doc w).
+Proof. exact StrikeRel.c15_strike_lines_from_read. Qed.
+Print Assumptions c15_strike_lines_from_read.
+
+Theorem c15_strike_string_from_read :
+  forall (inl : list (text * text) -> res (list styledecl)) (dr : list node -> res (list ruleset))
+         (c : config) (doc : list node) (w : N) (mark : chr -> bool),
+       mark strike_chr = true ->
+       string_from_read inl dr (set_strike c false) doc w <> OutOfFuel ->
+       res_rel (string_rel mark) (string_from_read inl dr c doc w)
+         (string_from_read inl dr (set_strike c false) doc w).
+Proof. exact StrikeRel.c15_strike_string_from_read. Qed.
+Print Assumptions c15_strike_string_from_read.
+
+Theorem c15_strike_routes_wf :
+  forall (inl : list (text * text) -> res (list styledecl)) (dr : list node -> res (list ruleset))
+         (c : config) (doc : list node) (w : N) (tree : rnode) (mark : chr -> bool),
+       mark strike_chr = true ->
+       w < usize_max ->
+       to_render_tree inl dr c doc = Ok tree ->
+       tree_wf (c_deco c) (c_min_wrap c) tree = true ->
+       res_rel (tlines_rel mark) (lines_from_read inl dr c doc w)
+         (lines_from_read inl dr (set_strike c false) doc w) /\
+       res_rel (string_rel mark) (string_from_read inl dr c doc w)
+         (string_from_read inl dr (set_strike c false) doc w).
+Proof. exact StrikeRel.c15_strike_routes_wf. Qed.
+Print Assumptions c15_strike_routes_wf.
+
